@@ -66,3 +66,18 @@ Theorem generated_apply_matcher_refines_model :
   ltac:(let t := type of apply_matcher_rows_end_to_end in exact t).
 Proof. exact apply_matcher_rows_end_to_end. Qed.
 Print Assumptions generated_apply_matcher_refines_model.
+
+(* ==== the property stated DIRECTLY ABOUT THE CODE: the function regenerated from the Python source on this
+   run (Gen/WrapperGen.v, Gen/FilterWrapperGen.v, Gen/MatcherGen.v), applied to any well-formed frames,
+   returns a frame with header header_spec whose rows, read at key level (kview: left key, right key,
+   score), satisfy complete_spec /\ sound_spec /\ missing_spec /\ empty_spec (Spec/JoinSpec.v, MetaSpec.v)
+   -- composition of `generated code refines api_join` with `api_join satisfies the specs` *)
+From SSJ Require Import CodeLevelBase CodeLevelJoins CodeLevelJoins2 CodeLevelFilters CodeLevelMatcher CodeLevelTight.
+Theorem C05_code_apply_matcher :
+  ltac:(let t := type of C05_code_apply_matcher_rows in exact t).
+Proof. exact C05_code_apply_matcher_rows. Qed.
+Print Assumptions C05_code_apply_matcher.
+Theorem C05_code_keep_predicate :
+  ltac:(let t := type of C05_code_keep in exact t).
+Proof. exact C05_code_keep. Qed.
+Print Assumptions C05_code_keep_predicate.
